@@ -362,7 +362,7 @@ export async function check(group, records) {
 
 export function meta({ tier }) {
   return {
-    rule: 'G-SLOT: host {bound import, unbound, member, Teleport} x child shape (16) x runtime kind of an identifier/call child value (7) x v-slots {absent, identifier, object literal} x enclosing context (6) x {enableObjectSlots, optimize}; ' + (tier === 'thorough' ? 'full product' : 'full shape x kind x v-slots product on one host plus a seeded sample of 6000 of the rest') + '. Every delivered slot is invoked twice; results and probe traces are compared with the reference. distinct_nontrivial = distinct (host, shape, kind, v-slots, context, options) with >= 1 child.',
+    rule: 'G-SLOT: host {bound import, unbound, member, Teleport} x child shape (16) x runtime kind of an identifier/call child value (7) x v-slots {absent, identifier, object literal} x enclosing context (6) x {enableObjectSlots, optimize}; ' + (tier === 'thorough' ? 'full product' : 'full shape x kind x v-slots product on one host plus a seeded sample of 6000 of the rest') + '. Every delivered slot is invoked twice; results and probe traces are compared with the reference. Plus loop families (the JSX evaluated three times in 14 loop / callback contexts incl. brace-less bodies of every statement kind: the k-th vnode must keep the k-th value of its call child) and prior-assignment families (an identifier child whose variable was earlier the target of an unrelated `x = <jsx>`: the slot must return the variable, also after it is reassigned). Option sets also include configurations that leave enableObjectSlots to its default. distinct_nontrivial = distinct (host, shape, kind, v-slots, context, options) with >= 1 child.',
     exhaustive: tier === 'thorough' ? ['host x shape x kind x v-slots x context x 4 option sets'] : ['shape x kind x v-slots x 4 option sets on a bound-import host in arrow context'],
     assumptions: ['v-slots entries are required beside a wrapped or function `default`; for an object-literal child both readings are accepted', 'runtime pass-through (child value is a slot function or plain non-vnode object) drops v-slots, as the statement says the value is passed through'],
   };
